@@ -58,6 +58,10 @@ pub struct Scenario {
     pub streams: Vec<Vec<u8>>,
     pub handles: Vec<HandleSpec>,
     pub events: Vec<Ev>,
+    /// where the searched automaton comes from: 0 = the builder, 1 = a clone of the built one,
+    /// 2 = restored from the built one's serialised bytes
+    #[serde(default)]
+    pub provenance: u8,
 }
 
 #[derive(Clone, Debug, Serialize, Deserialize)]
@@ -299,6 +303,11 @@ pub fn run(sc: &Scenario) -> Outcome {
             out.build_error = Some("construction panicked".into());
             return out;
         }
+    };
+    let pma = match sc.provenance {
+        1 => pma.clone_box(),
+        2 => pma.roundtrip(&[]).0,
+        _ => pma,
     };
     let world = Rc::new(RefCell::new(World {
         variant: sc.spec.variant,
@@ -722,6 +731,7 @@ pub fn generate(seed: u64) -> Scenario {
         streams,
         handles,
         events,
+        provenance: *rng.pick(&[0u8, 0, 0, 1, 2]),
     }
 }
 
@@ -776,7 +786,8 @@ fn generate_long(rng: &mut Rng, spec: Spec) -> Scenario {
     for h in 0..nh {
         events.push(Ev::Drain { handle: h });
     }
-    Scenario { spec, streams: vec![content], handles, events }
+    let provenance = *rng.pick(&[0u8, 0, 1, 2]);
+    Scenario { spec, streams: vec![content], handles, events, provenance }
 }
 
 /// Thorough tier: for one sampled (spec, content), every truncation point (every byte, or
@@ -827,6 +838,7 @@ pub fn sweep_scenarios(base: &Scenario) -> Vec<Scenario> {
                     streams: vec![content.clone()],
                     handles: vec![HandleSpec { method: *m, stream: 0, hint }],
                     events: ev,
+                    provenance: base.provenance,
                 });
             }
         }
@@ -951,6 +963,13 @@ pub fn minimise(sc: &Scenario, class: &str) -> Scenario {
                     cur = c;
                     break;
                 }
+            }
+        }
+        if cur.provenance != 0 {
+            let mut c = cur.clone();
+            c.provenance = 0;
+            if fails_same(&c, class) {
+                cur = c;
             }
         }
         for h in 0..cur.handles.len() {
